@@ -18,8 +18,13 @@ macro "u64_tac" ops:ident : tactic => `(tactic| (
   have p14 : padN 14 rest = rest := padN_of_le (by omega)
   have p15 : padN 15 rest = rest := padN_of_le (by omega)
   have p16 : padN 16 rest = rest := padN_of_le (by omega)
-  simp [stackRun, runOps, $ops:ident, Vm.step, Vm.stepCore, Vm.setStack, Vm.dup, Vm.movup, Vm.movdn,
-    insertAt, hs, pad16_eq, p12, p13, p14, p15, p16]
+  have n3 : ¬ (two32 ≤ x3) := by omega
+  have n2 : ¬ (two32 ≤ x2) := by omega
+  have n1 : ¬ (two32 ≤ x1) := by omega
+  have n0 : ¬ (two32 ≤ x0) := by omega
+  simp [stackRun_eq, runOps_cons, runOps_nil, step_eq_map, Except.map_ok', Except.map_error',
+    Except.bind_ok', Except.bind_error', Except.map_ite, Except.bind_ite, $ops:ident, Vm.stepCore, Vm.setStack, Vm.dup, Vm.movup, Vm.movdn,
+    insertAt, hs, pad16_eq, p12, p13, p14, p15, p16, n0, n1, n2, n3]
   all_goals (try (split_ifs <;> simp_all))
   all_goals (try (simp only [fadd, fsub, fneg, splitHi, splitLo, two32, u32max, two64, P, u64of] at *))
   all_goals (try omega)))
